@@ -30,7 +30,14 @@ WHAT_FOR = {
 def obligation_properties(name, kind, info, fn):
     """which properties an obligation belongs to"""
     p = info.get("property")
+    cls = fn.rsplit(".", 1)[0]
+    nestable = "." in cls or not cls.endswith(("ClientPacket", "ServerPacket"))
     if fn.endswith(".serialize"):
+        if kind == "mode-restored" and nestable:
+            # the bytes of every object that holds an instance of this class are proved from this class's summary, which
+            # includes "returns with the mode it was entered with": where that fails, what an enclosing object writes
+            # afterwards is sanitised wrongly - C02's concern as much as C15's
+            return {"C15", "C02"}
         if kind in ("mode-restored", "mode-restored-on-raise"):
             return {"C15"}
         if kind in ("wire", "accepts-valid"):
@@ -45,6 +52,8 @@ def obligation_properties(name, kind, info, fn):
     if fn.endswith(".roundtrip"):
         return {"C01"}
     if fn.endswith(".deserialize"):
+        if kind == "mode-restored" and nestable:
+            return {"C15", "C03"}       # likewise: what an enclosing object reads afterwards depends on the mode handed back
         if kind in ("mode-restored", "mode-restored-on-raise"):
             return {"C15"}
         if kind == "immutable-field":
@@ -251,7 +260,12 @@ def _work_batch(args):
                             {k: v for k, v in ob.info.items() if k in ("why", "property", "clause")}, None)
                 t = solve_one(ob)
                 if t[3] == "sat":
-                    res["refuted"] = res.get("refuted", 0) + 1
+                    # only refutations of the property being checked end the batch early: one of them is reported, the
+                    # skipped rest adds nothing.  (A refuted obligation of another property - say every `mode-restored`
+                    # while C02 is being checked - must not keep this property's obligations from being solved.)
+                    prop = os.environ.get("VERIF_E2_PROP", "")
+                    if not prop or prop in obligation_properties(ob.name, ob.kind, ob.info, ob.fn):
+                        res["refuted"] = res.get("refuted", 0) + 1
                 return t
 
             def solve_one(ob):
@@ -340,7 +354,7 @@ def _work_batch(args):
         shutil.rmtree(tmp, ignore_errors=True)
 
 
-def run_pipeline(what, tier, seed, repo_root, batch_size=25, with_enumerated=True):
+def run_pipeline(what, tier, seed, repo_root, batch_size=25, with_enumerated=True, prop=None):
     """returns dict with per-class results"""
     t0 = time.time()
     specs = select_specs(tier, seed) if with_enumerated else []
@@ -353,6 +367,7 @@ def run_pipeline(what, tier, seed, repo_root, batch_size=25, with_enumerated=Tru
             ill.append((ident, body, why))
         else:
             degenerate.append((ident, body, why))
+    os.environ["VERIF_E2_PROP"] = prop or ""         # read by the forked workers: whose refutations end a batch early
     tasks = [("tree", REALISTIC, what, repo_root, 10000)]
     batches = []
     for i in range(0, len(accept), batch_size):
